@@ -18,3 +18,47 @@ def trock (t0 tmax depth : Rat) (layers : List (Rat × Rat)) : Rat :=
   tempAt t0 layers (min depth (maxDepth t0 tmax layers))
 
 end GeoVerif
+
+namespace GeoVerif
+
+/-- magnitude heuristics applied after reading: gradients above 1 are taken as °C/km, zero gradients become 1e-6 °C/m -/
+def normGradient (g : Rat) : Rat :=
+  let g' := if 1 < g then g / 1000 else g
+  if g' < 1 / 1000000 then 1 / 1000000 else g'
+
+/-- thicknesses below 100 are taken as km -/
+def normThickness (t : Rat) : Rat := if t < 100 then t * 1000 else t
+
+/-- the layer stack the walk uses: the first `numseg` (gradient, thickness) pairs -/
+def layersOf (numseg : Nat) (grads thick : List Rat) : List (Rat × Rat) :=
+  (List.range numseg).map (fun i => (grads.getD i 0, thick.getD i 100000))
+
+/-- depth after the cap (`if depth > maxdepth: depth = maxdepth`) -/
+def cappedDepth (t0 tmax depth : Rat) (layers : List (Rat × Rat)) : Rat :=
+  let md := maxDepth t0 tmax layers
+  if md < depth then md else depth
+
+/-- percentage (linear) thermal drawdown model -/
+def tdpAt (p trock tinj t : Rat) : Rat := (1 - p * t) * (trock - tinj) + tinj
+
+/-- a drawdown profile given by weights `w` (single-fracture model: `w = erf(c/√t)`) -/
+def weightedAt (w trock tinj : Rat) : Rat := w * (trock - tinj) + tinj
+
+/-- `np.argmax(xs < lim)` as an option: index of the first element below the limit -/
+def firstBelowFrom (lim : Rat) : List Rat → Option Nat
+  | [] => none
+  | x :: xs => if x < lim then some 0 else (firstBelowFrom lim xs).map (· + 1)
+
+/-- `np.argmax` returns 0 both for "first element" and for "none" -/
+def firstBelow (lim : Rat) (xs : List Rat) : Nat := (firstBelowFrom lim xs).getD 0
+
+/-- `np.tile(xs[0:k], r + 1)[0:n]` -/
+def tileTo (xs : List Rat) (k n : Nat) : List Rat := (List.range n).map (fun j => xs.getD (j % k) 0)
+
+/-- redrilling: produced-temperature series after tiling, and the number of redrillings -/
+def redrill (xs : List Rat) (dd : Rat) : List Rat × Nat :=
+  let lim := (1 - dd) * xs.headD 0
+  let k := firstBelow lim xs
+  if 0 < k then (tileTo xs k xs.length, xs.length / k) else (xs, 0)
+
+end GeoVerif
